@@ -99,6 +99,8 @@ type runner struct {
 	procBase int
 	fires    int64
 	rearms   int64
+	drained  map[int]bool // keys delivered by an earlier (mid-sequence) Drain
+	drains   int64
 }
 
 var procBaseline int
@@ -192,6 +194,10 @@ func (r *runner) apply(o op) {
 		if old, ok := r.model[o.Key]; ok {
 			r.rearms++
 			r.model[o.Key] = &mtimer{val: v, due: r.ticks + o.Steps, armedAt: r.ticks, lastOp: "set-existing", rel: r.relation(old, o.Steps)}
+		} else if r.drained[o.Key] {
+			// first Set of a key whose previous timer was delivered by Drain: a new timer like any other
+			delete(r.drained, o.Key)
+			r.model[o.Key] = &mtimer{val: v, due: r.ticks + o.Steps, armedAt: r.ticks, lastOp: "set-after-drain", rel: "-"}
 		} else {
 			r.model[o.Key] = &mtimer{val: v, due: r.ticks + o.Steps, armedAt: r.ticks, lastOp: "set-new", rel: "-"}
 		}
@@ -209,6 +215,18 @@ func (r *runner) apply(o op) {
 		delete(r.model, o.Key)
 	case opTick:
 		r.tick()
+	case opDrain:
+		// mid-sequence Drain: pending timers are delivered exactly once (checked), nothing of
+		// them may fire later (the per-tick monitor reports any firing the model does not hold,
+		// with a key that names the drained key), and timers set afterwards behave as usual
+		for k := range r.model {
+			if r.drained == nil {
+				r.drained = map[int]bool{}
+			}
+			r.drained[k] = true
+		}
+		r.drainDeliver()
+		r.drains++
 	}
 }
 
@@ -227,6 +245,8 @@ func (r *runner) tick() {
 		r.fires++
 		m, ok := r.model[f.key]
 		switch {
+		case !ok && r.drained[f.key]:
+			r.c.Viol("C12/fired-after-drain/mid-sequence", fmt.Sprintf("key k%d fired at tick %d although its timer had been delivered by an earlier Drain and was not set again", f.key, r.ticks), r.witness(""))
 		case !ok:
 			r.c.Viol("C12/fired-but-not-pending", fmt.Sprintf("key k%d fired at tick %d but the model holds no pending timer for it (removed, already fired or never set)", f.key, r.ticks),
 				r.witness(fmt.Sprintf("tick=%d key=%d val=%d", r.ticks, f.key, f.val)))
@@ -302,6 +322,8 @@ func (r *runner) tickLate() {
 		r.fires++
 		m, ok := r.model[f.key]
 		switch {
+		case !ok && r.drained[f.key]:
+			r.c.Viol("C12/fired-after-drain/mid-sequence", fmt.Sprintf("key k%d fired at tick %d although its timer had been delivered by an earlier Drain and was not set again", f.key, r.ticks), r.witness(""))
 		case !ok:
 			r.c.Viol("C12/fired-but-not-pending", fmt.Sprintf("key k%d fired at tick %d but the model holds no pending timer for it", f.key, r.ticks), r.witness(""))
 		case seen[f.key] > 1:
@@ -330,6 +352,23 @@ func (r *runner) tickLate() {
 
 // drain is the terminal Drain: every pending timer delivered exactly once, nothing afterwards.
 func (r *runner) drain() {
+	if !r.drainDeliver() {
+		return
+	}
+	for i := 0; i < 2*r.n+2; i++ {
+		r.tk.c <- time.Time{}
+		r.sync()
+		quiesce(r.baseline)
+		r.ticks++
+		if g := r.take(); len(g) > 0 {
+			r.c.Viol("C12/fired-after-drain", fmt.Sprintf("k%d fired %d ticks after Drain", g[0].key, i+1), r.witness(""))
+		}
+	}
+}
+
+// drainDeliver calls Drain and checks that exactly the pending timers are delivered, once each,
+// with their latest values; the model is empty afterwards.
+func (r *runner) drainDeliver() bool {
 	var mu sync.Mutex
 	var got []fired
 	if err := r.tw.Drain(func(k, v any) {
@@ -338,7 +377,7 @@ func (r *runner) drain() {
 		mu.Unlock()
 	}); err != nil {
 		r.c.Viol("C12/api-error/drain", err.Error(), r.witness(""))
-		return
+		return false
 	}
 	r.sync()
 	if !quiesce(r.baseline) {
@@ -365,15 +404,7 @@ func (r *runner) drain() {
 	}
 	r.c.Obs("drained", int64(len(got)))
 	r.model = map[int]*mtimer{}
-	for i := 0; i < 2*r.n+2; i++ {
-		r.tk.c <- time.Time{}
-		r.sync()
-		quiesce(r.baseline)
-		r.ticks++
-		if g := r.take(); len(g) > 0 {
-			r.c.Viol("C12/fired-after-drain", fmt.Sprintf("k%d fired %d ticks after Drain", g[0].key, i+1), r.witness(""))
-		}
-	}
+	return true
 }
 
 func (r *runner) stop() {
@@ -410,6 +441,9 @@ func runSeq(c *kit.Case, n int, seq []op, drain bool) {
 	c.Obs("ticks", int64(r.ticks))
 	c.Obs("firings", r.fires)
 	c.Obs("rearms_of_pending_timer", r.rearms)
+	if r.drains > 0 {
+		c.Obs("mid_sequence_drains", r.drains)
+	}
 	sig := []any{n, drain}
 	for _, o := range seq {
 		sig = append(sig, o.String())
@@ -540,6 +574,49 @@ func TestVerifC12(t *testing.T) {
 				s[i] = o.String()
 			}
 			c.Sample("random", 2, map[string]any{"slots": n, "keys": keys, "drain": drain, "ops": s})
+		}
+	})
+
+	// ---- random with Drain in the middle of the sequence: the wheel stays usable after Drain
+	// (statement: "Drain delivers each pending timer exactly once"; timers set afterwards are
+	// timers like any other). Move/Remove of a drained key are no-ops for the model.
+	kit.Run(t, "C12", "drain-mid", kit.N(600, 20000), func(c *kit.Case) {
+		r := c.R
+		n := kit.Choose(r, []int{1, 2, 3, 5, 8, 16})
+		keys := r.Range(1, 4)
+		L := r.Range(6, 60)
+		seq := make([]op, 0, L)
+		for i := 0; i < L; i++ {
+			var o op
+			switch r.Pick(30, 20, 6, 34, 10) {
+			case 0:
+				o = op{K: opSet}
+			case 1:
+				o = op{K: opMove}
+			case 2:
+				o = op{K: opRemove}
+			case 3:
+				o = op{K: opTick}
+			default:
+				o = op{K: opDrain}
+			}
+			o.Key = r.Intn(keys)
+			if o.K == opSet || o.K == opMove {
+				if r.Bool() {
+					o.Steps = r.Range(1, n+1)
+				} else {
+					o.Steps = r.Range(1, 3*n+1)
+				}
+			}
+			seq = append(seq, o)
+		}
+		runSeq(c, n, seq, r.Chance(0.3))
+		if c.Index < 1 {
+			s := make([]string, len(seq))
+			for i, o := range seq {
+				s[i] = o.String()
+			}
+			c.Sample("drain-mid", 1, map[string]any{"slots": n, "keys": keys, "ops": s})
 		}
 	})
 	kit.End()
